@@ -12,6 +12,7 @@ from . import pkgxform, refpkg
 P = "{http://schemas.openxmlformats.org/presentationml/2006/main}"
 A = "{http://schemas.openxmlformats.org/drawingml/2006/main}"
 _LAYOUT = re.compile(r"^ppt/slideLayouts/slideLayout\d+\.xml$")
+_NOTES_MASTER = re.compile(r"^ppt/notesMasters/notesMaster\d+\.xml$")
 LAYOUT_TYPES = ["title", "body", "ctrTitle", "subTitle", "dt", "sldNum", "ftr", "obj", "chart", "tbl", "clipArt", "dgm",
                 "media", "pic", None]
 
@@ -22,6 +23,8 @@ def apply(data: bytes, x: dict) -> bytes:
     for n, b in pkgxform.read_members(data):
         if _LAYOUT.match(n) and r.random() < x.get("rate", 0.7):
             b = _mutate(b, r)
+        elif _NOTES_MASTER.match(n) and x.get("notes", True):
+            b = _mutate_notes_master(b, r)
         out.append((n, b))
     return pkgxform.write_members(out)
 
@@ -70,6 +73,20 @@ def _mutate(blob: bytes, r: random.Random) -> bytes:
                 xf = sppr.find(A + "xfrm")
                 if xf is not None:
                     sppr.remove(xf)
+        elif k < 0.33:
+            # zero-valued geometry is a value, not "unset"
+            sppr = sp.find(P + "spPr")
+            xf = sppr.find(A + "xfrm") if sppr is not None else None
+            if xf is not None and xf.find(A + "off") is not None and xf.find(A + "ext") is not None:
+                which = r.choice(["x", "y", "xy", "cx", "cy"])
+                if "x" == which or which == "xy":
+                    xf.find(A + "off").set("x", "0")
+                if "y" == which or which == "xy":
+                    xf.find(A + "off").set("y", "0")
+                if which == "cx":
+                    xf.find(A + "ext").set("cx", "0")
+                if which == "cy":
+                    xf.find(A + "ext").set("cy", "0")
         elif k < 0.4:
             ph.set("orient", "vert")
         elif k < 0.55:
@@ -80,4 +97,39 @@ def _mutate(blob: bytes, r: random.Random) -> bytes:
                 ph.attrib.pop("type", None)
             else:
                 ph.set("type", t)
+    return etree.tostring(root, xml_declaration=True, encoding="UTF-8", standalone=True)
+
+
+def _mutate_notes_master(blob: bytes, r: random.Random) -> bytes:
+    """Re-order the notes master's placeholders and (sometimes) give it a second body placeholder."""
+    root = refpkg.parse(blob)
+    tree = root.find(P + "cSld/" + P + "spTree")
+    if tree is None:
+        return blob
+    phs = [sp for sp in tree if isinstance(sp.tag, str) and sp.tag == P + "sp" and sp.find(P + "nvSpPr/" + P + "nvPr/" + P + "ph") is not None]
+    if len(phs) < 2:
+        return blob
+    k = r.random()
+    if k < 0.7:
+        order = list(phs)
+        r.shuffle(order)
+        for sp in phs:
+            tree.remove(sp)
+        for sp in order:
+            tree.append(sp)
+    if r.random() < 0.4:
+        bodies = [sp for sp in phs if sp.find(P + "nvSpPr/" + P + "nvPr/" + P + "ph").get("type") == "body"]
+        if bodies:
+            new = copy.deepcopy(bodies[0])
+            max_id = max([int(e.get("id")) for e in root.iter(P + "cNvPr") if (e.get("id") or "").isdigit()] or [1])
+            c = new.find(P + "nvSpPr/" + P + "cNvPr")
+            c.set("id", str(max_id + 1))
+            c.set("name", "Second Notes Body")
+            ph = new.find(P + "nvSpPr/" + P + "nvPr/" + P + "ph")
+            used = {int(sp.find(P + "nvSpPr/" + P + "nvPr/" + P + "ph").get("idx", "0")) for sp in phs}
+            idx = 7
+            while idx in used:
+                idx += 1
+            ph.set("idx", str(idx))
+            tree.append(new)
     return etree.tostring(root, xml_declaration=True, encoding="UTF-8", standalone=True)
